@@ -8,7 +8,8 @@ from hypothesis import strategies as st
 B = 16384
 
 TRAP_NAMES = ["a", "a.txt", "a b", "a-b", "B", "10", "9", ".hidden", "a0", "A", "b", "z.d", "a!", "aa"]
-NONASCII = ["é", "ü", "丂", "😀", "é", "ß", "Ω"]
+# composed and decomposed forms, compatibility characters (an encoder must keep names byte-for-byte)
+NONASCII = ["\u00e9", "e\u0301", "\u00fc", "\u4e02", "\U0001f600", "\u212b", "\u00df", "\u03a9", "\ufb01"]
 SAFE_PUNCT = " !#$%&'()+,;=@[]^_{}~.-"
 ALPHA = "abcdefghijklmnopqrstuvwxyzABCDEFGHIJKLMNOPQRSTUVWXYZ0123456789"
 
@@ -62,7 +63,7 @@ def file_size(P, big=True):
 
 
 MODES_ALL = ["rnd", "rnd", "nz", "zero", "const", "ztail"]
-MODES_NZ = ["nz"]
+MODES_NZ = ["nz", "nz", "nz", "const"]   # every byte non-zero; "const" = one repeated byte (periodic content)
 
 
 def file_entry(P, modes, big=True, nonempty=False):
@@ -124,6 +125,16 @@ def tree(draw, P, max_files=8, modes=None, single=None, min_files=1, cli_safe=Fa
     one = st.one_of(st.sampled_from(pool), comp)
     depth = st.sampled_from([1, 1, 1, 2, 2, 3, 4])
     raw = [draw(st.lists(one, min_size=1, max_size=draw(depth))) for _ in range(n)]
+    if draw(st.integers(0, 3)) == 0:
+        # sort-order trap: a sibling that differs from an existing entry only in letter case / Unicode normal form
+        import unicodedata
+        src = list(raw[draw(st.integers(0, len(raw) - 1))])
+        lvl = draw(st.integers(0, len(src) - 1))
+        how = draw(st.sampled_from(["swapcase", "swapcase", "NFD", "NFC"]))
+        twin = src[lvl].swapcase() if how == "swapcase" else unicodedata.normalize(how, src[lvl])
+        if twin != src[lvl] and twin not in (".", ".."):
+            src[lvl] = twin
+            raw.append(src)
     paths = _fix_paths(raw)
     files = []
     for p in paths:
@@ -132,6 +143,13 @@ def tree(draw, P, max_files=8, modes=None, single=None, min_files=1, cli_safe=Fa
         files.append(f)
     if nonempty_total and all(f["size"] == 0 for f in files):
         files[0]["size"] = 1 + draw(st.integers(0, 2 * P))
+    if len(files) >= 2 and draw(st.integers(0, 3)) == 0:
+        # make one file start mid-piece and end exactly on a piece boundary of the v1 stream (full-path order)
+        order = sorted(range(len(files)), key=lambda i: "/".join([name] + files[i]["path"]))
+        j = draw(st.integers(1, len(files) - 1))
+        off = sum(files[i]["size"] for i in order[:j])
+        if off % P:
+            files[order[j]]["size"] = (-off) % P + P * draw(st.integers(0, 2))
     if len(files) == 1 and files[0]["path"] == [name]:
         # BEP 52 cannot tell "directory x holding only file x" from "single file x": not generated
         files[0]["path"] = [name + "~f"]
